@@ -375,14 +375,34 @@ def run_check(mod, tier, seed, replay=None):
         ctx.escalated = True
     exit_code = 0
     infra_error = None
+    def crashed(stage, ex):
+        # The harness itself failed while handling what the implementation returned (a value of an unexpected shape or
+        # type, e.g. a bare datetime where a pair is documented).  On a tree where the checks pass this does not happen,
+        # so it is treated like a correspondence that no longer checks: escalate, keep searching for a failing input.
+        import traceback
+        tb = traceback.format_exc().strip().splitlines()
+        ctx.mismatches.append({"op": "%s-crashed" % stage, "input": " | ".join(l.strip() for l in tb[-6:])[:900],
+                               "impl": "%s: %s" % (type(ex).__name__, str(ex)[:300]), "model": "-"})
+        ctx.note("%s stopped by %s: %s (recorded as a correspondence that no longer checks)" % (stage, type(ex).__name__, str(ex)[:200]))
+        ctx.escalated = True
     try:
         if ctx.lean.driver_ok:
-            mod.correspondence(ctx)
+            try:
+                mod.correspondence(ctx)
+            except (DriverError, subprocess.TimeoutExpired):
+                raise
+            except Exception as ex:
+                crashed("correspondence", ex)
         else:
             ctx.note("driver unavailable: correspondence skipped")
         if ctx.mismatches:
             ctx.escalated = True
-        mod.oracle(ctx)
+        try:
+            mod.oracle(ctx)
+        except (DriverError, subprocess.TimeoutExpired):
+            raise
+        except Exception as ex:
+            crashed("oracle", ex)
     except (DriverError, subprocess.TimeoutExpired) as ex:
         infra_error = "%s: %s" % (type(ex).__name__, ex)
     # ---- decision ----
